@@ -1,5 +1,6 @@
 use crate::encode::Encoder;
-use crate::{Dns, EncodeResult, Flags};
+use crate::{Dns, EncodeError, EncodeResult, Flags};
+use std::convert::TryInto;
 
 impl Encoder {
     pub(super) fn flags(&mut self, flags: &Flags) {
@@ -35,13 +36,23 @@ impl Encoder {
         self.u8(buffer);
     }
 
+    fn count(&mut self, count: usize) -> EncodeResult<()> {
+        match count.try_into() {
+            Ok(count) => {
+                self.u16(count);
+                Ok(())
+            }
+            Err(_) => Err(EncodeError::Length(count)),
+        }
+    }
+
     pub(super) fn dns(&mut self, dns: &Dns) -> EncodeResult<()> {
         self.u16(dns.id);
         self.flags(&dns.flags);
-        self.u16(dns.questions.len() as u16);
-        self.u16(dns.answers.len() as u16);
-        self.u16(dns.authorities.len() as u16);
-        self.u16(dns.additionals.len() as u16);
+        self.count(dns.questions.len())?;
+        self.count(dns.answers.len())?;
+        self.count(dns.authorities.len())?;
+        self.count(dns.additionals.len())?;
 
         for question in &dns.questions {
             self.question(question)?;
@@ -57,6 +68,11 @@ impl Encoder {
 
         for additional in &dns.additionals {
             self.rr(additional)?;
+        }
+
+        let bytes_len = self.bytes.len();
+        if bytes_len > u16::MAX as usize {
+            return Err(EncodeError::Length(bytes_len));
         }
 
         Ok(())
